@@ -328,6 +328,9 @@ def worker_files(rec, shard, nshards, scratch, seed):
     for combo in itertools.product(["tag", "unknown", "reptag", "circle", "ext", "onset", "badkey"], repeat=4):
         if hash(combo) % 4 == 0:
             jobs.append(("table", ([combo[:2], combo[2:]], ("HED", "c1"))))
+    # events tables whose rows are out of time order: the file-level warning obeys the warning switch like any other
+    for cells in (("Red", "Blue"), ("Red", "Zzq"), ("Item/Zzext", "Red"), ("(Green, (Circle))", "Blue, Blue")):
+        jobs.append(("unordered-table", cells))
     # spreadsheets with 3-4 tag columns and no onset (the row string is built from several cell strings)
     cells = ["Red", "Blue, Blue", "Zzq", "Item/Zzext", "(Green, (Circle))", "n/a", "Label/a$b"]
     for combo in itertools.product(cells, repeat=4):
@@ -358,6 +361,10 @@ def worker_files(rec, shard, nshards, scratch, seed):
                     sc = Sidecar(io.StringIO(sj)) if sj != "{}" else None
                     issues = TabularInput(io.StringIO(tsv), sidecar=sc, name="f.tsv").validate(
                         schema, error_handler=ErrorHandler(warn))
+                    where = {"table": tsv, "warnings": warn}
+                elif entry == "unordered-table":
+                    tsv = "onset\tHED\n5.0\t" + payload[0] + "\n2.0\t" + payload[1] + "\n"
+                    issues = TabularInput(io.StringIO(tsv), name="u.tsv").validate(schema, error_handler=ErrorHandler(warn))
                     where = {"table": tsv, "warnings": warn}
                 elif entry == "spreadsheet":
                     tsv = "c1\tc2\tc3\tc4\n" + "\t".join(payload) + "\n" + "\t".join(payload[::-1]) + "\n"
